@@ -6,8 +6,8 @@
 
 namespace c04 {
 
-template <typename Char, std::size_t N>
-auto Run<Char, N>::do_query(std::uint32_t code) -> void
+template <typename Char, std::size_t N, typename Tr>
+auto Run<Char, N, Tr>::do_query(std::uint32_t code) -> void
 {
     E const& cx     = *x;
     M const& m      = *mx;
@@ -17,7 +17,7 @@ auto Run<Char, N>::do_query(std::uint32_t code) -> void
 
     auto report = [&](char const* what, std::size_t got, std::size_t exp, std::string const& ndl, std::size_t p, std::size_t n) {
         nt_hit |= (exp != knpos);
-        if (got == exp) { return; }
+        if (got == exp || tolerated(what)) { return; }
         std::string d = std::string(what) + ": haystack " + show(m) + " needle " + ndl;
         if (p != knpos - 1) { d += " pos " + num(p); }
         if (n != knpos - 1) { d += " n " + num(n); }
@@ -178,9 +178,9 @@ auto Run<Char, N>::do_query(std::uint32_t code) -> void
     case COMPARE_POS_N_VIEW_POS: {
         auto o   = cmp_other(op.b); // size <= N
         auto p1  = vpos(op.a, size);
-        auto n1  = qcount(op.a / 8, size - p1);
+        auto n1  = qc(op.a / 8, size - p1, p1);
         auto p2  = vpos(op.c >> 4, o.size());
-        auto n2  = qcount(op.c >> 7, o.size() - p2);
+        auto n2  = qc(op.c >> 7, o.size() - p2, p2);
         auto co  = no_nul(o);
         nt_edge |= (p1 == size);
         int got = 0, exp = 0;
@@ -230,7 +230,7 @@ auto Run<Char, N>::do_query(std::uint32_t code) -> void
         auto cb  = cbuf(cnd);
         SV v(pb.get(), pb.n);
         auto chk = [&](char const* what, bool got, bool exp, std::string const& arg) {
-            if (got != exp) { fail(show(m) + "." + what + "(" + arg + "): expected " + (exp ? "true" : "false") + " got " + (got ? "true" : "false")); }
+            if (got != exp && !tolerated(what)) { fail(show(m) + "." + what + "(" + arg + "): expected " + (exp ? "true" : "false") + " got " + (got ? "true" : "false")); }
         };
         chk("starts_with", cx.starts_with(v), m.starts_with(SSV(nd)), "view " + show(nd));
         chk("starts_with", cx.starts_with(ch), m.starts_with(ch), show_ch(ch));
@@ -274,6 +274,21 @@ auto Run<Char, N>::do_query(std::uint32_t code) -> void
                 fail(std::string("operator ") + nm[i] + " with a=" + show(m) + " p=cstr " + show(o) + ": expected " + (e[i] ? "true" : "false") + " got " + (g[i] ? "true" : "false"));
                 break;
             }
+        }
+        // string x string_view in both orders (through the string's conversion to basic_string_view), where it compiles
+        auto pb = pbuf(o);
+        SV v(pb.get(), pb.n);
+        SSV w(o);
+        if constexpr (requires { cx == v; cx != v; cx < v; cx <= v; cx > v; cx >= v; v == cx; v != cx; v < cx; v <= cx; v > cx; v >= cx; }) {
+            bool gv[12] = {cx == v, cx != v, cx < v, cx <= v, cx > v, cx >= v, v == cx, v != cx, v < cx, v <= cx, v > cx, v >= cx};
+            bool ev[12] = {m == w, m != w, m < w, m <= w, m > w, m >= w, w == m, w != m, w < m, w <= m, w > m, w >= m};
+            for (int i = 0; i < 12; ++i) {
+                if (gv[i] != ev[i]) {
+                    fail(std::string("operator ") + nm[i] + " with a=" + show(m) + " p=string_view " + show(o) + ": expected " + (ev[i] ? "true" : "false") + " got " + (gv[i] ? "true" : "false"));
+                    break;
+                }
+            }
+            vf::count("relops.string_x_string_view.compiled");
         }
         break;
     }
